@@ -293,15 +293,18 @@ impl<K: RecognizerReadable, V: RecognizerReadable> Decoder for MapOperationDecod
                             break Ok(None);
                         }
                         Err(e) => {
+                            // The rest of the key and, for an update, the whole of the value are
+                            // still to come and must be skipped.
+                            let to_skip = *remaining + value_size.unwrap_or(0);
                             let rem = src.remaining();
-                            if rem >= *remaining {
-                                src.advance(*remaining);
+                            if rem >= to_skip {
+                                src.advance(to_skip);
                                 *state = MapOperationDecoderState::ReadingHeader;
                                 break Err(e.into());
                             } else {
                                 src.clear();
                                 *state = MapOperationDecoderState::Discarding {
-                                    remaining: *remaining - rem,
+                                    remaining: to_skip - rem,
                                     error: Some(e),
                                 }
                             }
